@@ -153,6 +153,7 @@ def main():
             'multivalue-pairwise': dict(base_args, target_ranking_only='False', explode_multivalue_features='m'),
             'focus-pairwise': dict(base_args, target_ranking_only='False', feature_set_focus='f0,f2,zz,m'),
             'subsampled-mi': dict(base_args, target_ranking_only='False', mi_stratified_sampling_ratio=0.5),
+            'progress-bar-on': dict(base_args, target_ranking_only='False', disable_tqdm='False'),      # the CLI default; uneven task costs (hc)
             'binding-cap': dict(base_args, target_ranking_only='False', combination_number_upper_bound=5),      # which pairs survive the cap must not depend on the process
         }
         # a user-chosen large mini-batch (100000 rows) on a file of 90000 rows: where the batches are cut must not depend on the pool
